@@ -1138,6 +1138,12 @@ class StmtGen:
             self.loopvar += 1
             iv = "i%d" % self.loopvar
             k = r.choice([0, 1, 2, 3, 3, 4])
+            if r.random() < 0.3:
+                # the loop variable is an injected target: init, test and step are observable in the host store
+                iv = r.choice(["h.I64", "h.Sub.N", "pc", "h.PSub.N"])
+                tgt = ("var", iv)
+                return sfor(assign(tgt, "=", ("math", mint(0))), mk_ecmp("<", emath(mvar(iv)), emath(mint(k))),
+                            assign(tgt, "+=", ("math", mint(1))), self.blk(depth - 1, True))
             self.locals.append(iv)
             return sfor(assign(("var", iv), "=", ("math", mint(0))), mk_ecmp("<", emath(mvar(iv)), emath(mint(k))),
                         assign(("var", iv), "+=", ("math", mint(1))), self.blk(depth - 1, True))
